@@ -61,6 +61,20 @@ Proof.
     intros b' H; injection H as <-. lia.
   - cbn [fst snd]. intros _. repeat split; try reflexivity. intros b H; discriminate.
 Qed.
+(* the same on the quantities themselves: not below the minimum free space, strictly below the size limit *)
+Lemma gate_sound_n avail minv total maxv size bavail res : fst (pull_gate_n avail minv total maxv size bavail res) = true ->
+  (forall a, avail = Some a -> minv <= a) /\ (forall m, maxv = Some m -> 0 < m -> total < m) /\
+  (forall b, bavail = Some b -> size * factor <= b - res).
+Proof.
+  unfold pull_gate_n. intros H. apply gate_sound in H as [Hu [Ho [Hb _]]]. split; [|split; [|exact Hb]].
+  - intros a ->. cbn [node_under_min] in Hu. lia.
+  - intros m -> Hm. cbn [node_over_max] in Ho. destruct (m <=? 0) eqn:E; lia.
+Qed.
+Lemma gate_at_limit avail minv total m size bavail res : 0 < m -> m <= total -> fst (pull_gate_n avail minv total (Some m) size bavail res) = false.
+Proof.
+  intros Hm Ht. unfold pull_gate_n, pull_gate. destruct (node_under_min avail minv); [reflexivity|].
+  cbn [node_over_max]. destruct (m <=? 0) eqn:E; [lia|]. destruct (m <=? total) eqn:F; [reflexivity | lia].
+Qed.
 Lemma gate_refusal_keeps um om size bavail res : fst (pull_gate um om size bavail res) = false -> snd (pull_gate um om size bavail res) = res.
 Proof.
   unfold pull_gate. destruct um; [reflexivity|]. destruct om; [reflexivity|]. unfold reserve.
